@@ -41,4 +41,44 @@ def handleAcc (args : List String) : String :=
     | _, _, _ => "bad-op"
   | _ => "bad-op"
 
+namespace SpellDrv
+
+/-- `cp/f/cp'`: `f` = `u` when `char::is_uppercase` (else `n`), `cp'` = `to_uppercase().next()` (format of `spellr`) -/
+def parseCharRow (w : String) : Option (Char × Bool × Char) :=
+  match w.splitOn "/" with
+  | [c, f, u] =>
+    match c.toNat?, u.toNat? with
+    | some c, some u => if f == "u" || f == "n" then some (Char.ofNat c, f == "u", Char.ofNat u) else none
+    | _, _ => none
+  | _ => none
+
+/-- one search result: words separated by `,`; no word at all = the empty result -/
+def parseRound (ws : List String) : Option (List (List Char)) :=
+  if ws.isEmpty then some [] else (splitAt "," ws).mapM charsOf
+
+end SpellDrv
+
+/-- `sugg | w | r₂ ; r₃ ; r₄ | flag cps ; … | s , lower s , norm s ; … | cp/f/cp' …` → `ok s₁ , s₂ , s₃` (the suggestions of
+the lint on the flagged word `w`, code points) or `panic`: `Spell.lintSuggestions`. `rᵢ` = what
+`suggest_correct_spelling(w, 100, i, dict)` returns (words separated by `,`); entries and the `lower` / `normalize` table as
+in `acc` (a string without a row is its own image); chars as in `spellr`. -/
+def handleSugg (args : List String) : String :=
+  match splitAt "|" args with
+  | [[], w, rs, es, tab, chs] =>
+    let es := if es.isEmpty then [] else splitAt ";" es
+    let tab := if tab.isEmpty then [] else splitAt ";" tab
+    match charsOf w, (splitAt ";" rs).mapM parseRound, es.mapM parseEntry, tab.mapM parseRow, chs.mapM parseCharRow with
+    | some w, some rounds, some dict, some rows, some chars =>
+      let isUpper := fun c => match chars.lookup c with | some (u, _) => u | none => false
+      let up := fun c => match chars.lookup c with | some (_, u) => u | none => c
+      -- never default silently: the first letter of the word and of every candidate of the chosen search must have a row
+      let need := w.head?.toList ++ (backoff rounds).filterMap List.head?
+      if need.all (fun c => (chars.lookup c).isSome) then
+        match lintSuggestions (fnsOf rows) dict isUpper up w rounds with
+        | .ok out => joinSp ("ok" :: (out.map showChars).intersperse ",")
+        | .error _ => "panic"
+      else "bad-op"
+    | _, _, _, _, _ => "bad-op"
+  | _ => "bad-op"
+
 end Harper.Driver.Spell
